@@ -280,7 +280,9 @@ def rule_R5_labelled_for(text, log):
 # R6: redirects of std / foreign calls Verus has no spec for to same-named
 # prelude functions (whose trusted contract is the std documentation).
 R6_TABLE = [
-    (r'\bu16::from_be_bytes\(\[', 'vx_u16_from_be_bytes(['),
+    (r'&src\[([^\[\]]+?)\.\.\]', r'src.vx_from(\1)'),
+    (r'\bsrc\[(\d+)\]', r'src.vx_at(\1)'),
+    (r'\bu16::from_be_bytes\(\[([^\[\],]+),\s*([^\[\],]+)\]\)', r'vx_u16_from_be(\1, \2)'),
     (r'\.map_err\(\|\(\)\| DecodeError::Utf8Error\)', '.vx_map_err_utf8()'),
     (r'\.map_or\(0, Bytes::len\)', '.vx_map_or_0_len()'),
     (r'\(\*cb\)\(', 'cb.vx_call('),
@@ -741,7 +743,7 @@ def expand_macro(unit, it, src, rel):
         pairs = re.findall(r'(\w+)\s*=\s*(0x[0-9A-Fa-f_]+|0b[01_]+|\d+)', mm.group(2))
         if not pairs:
             raise Unsupported('prim_enum! variants')
-        out = ['#[derive(Eq, PartialEq, Copy, Clone)]', 'pub enum %s {' % ename]
+        out = ['#[derive(Copy, Clone)]', 'pub enum %s {' % ename]
         for v, val in pairs:
             out.append('    %s = %s,' % (v, val))
         out.append('}')
@@ -777,6 +779,15 @@ def expand_macro(unit, it, src, rel):
         for v, val in pairs:
             out.append('        %s::%s => %s,' % (ename, v, val))
         out.append('    }')
+        out.append('}')
+        # derive(PartialEq, Eq) of the macro, written out so that its body is verified (= discriminant equality)
+        out.append('impl PartialEq for %s {' % ename)
+        out.append('    fn eq(&self, other: &Self) -> (r: bool) { %s_to_u8(*self) == %s_to_u8(*other) }' % (ename, ename))
+        out.append('}')
+        out.append('impl Eq for %s {}' % ename)
+        out.append('impl vstd::std_specs::cmp::PartialEqSpecImpl for %s {' % ename)
+        out.append('    open spec fn obeys_eq_spec() -> bool { true }')
+        out.append('    open spec fn eq_spec(&self, other: &Self) -> bool { *self == *other }')
         out.append('}')
         out.append('impl core::convert::From<%s> for u8 {' % ename)
         out.append('    fn from(v: %s) -> (r: u8) ensures r == %s_spec_to_u8(v) { %s_to_u8(v) }' % (ename, ename, ename))
@@ -834,6 +845,10 @@ def expand_macro(unit, it, src, rel):
         out.append('            assert((m & p == 0) ==> ((o & !p) & m == m) == (o & m == m)) by (bit_vector);')
         out.append('        }')
         out.append('    }')
+        out.append('    pub fn set(&mut self, other: Self, value: bool)')
+        out.append('        ensures value ==> fl_has(final(self).bits, other.bits), !value && other.bits != 0 ==> !fl_has(final(self).bits, other.bits),')
+        out.append('            forall|m: %s| #![trigger fl_has(final(self).bits, m)] (m & other.bits == 0) ==> (fl_has(final(self).bits, m) == fl_has(old(self).bits, m)),' % ty)
+        out.append('    { if value { self.insert(other); } else { self.remove(other); } }')
         out.append('    pub fn from_bits_truncate(bits: %s) -> (r: Self) ensures r.bits == bits & %d%s { %s { bits: bits & %d } }' % (ty, allv, ty, sname, allv))
         out.append('    pub fn from_bits(bits: %s) -> (r: Option<Self>) ensures r == (if bits & !%d%s == 0 { Some(%s { bits }) } else { None::<%s> }) { if bits & !%d%s == 0 { Some(%s { bits }) } else { None } }' % (ty, allv, ty, sname, sname, allv, ty, sname))
         out.append('}')
